@@ -2,6 +2,11 @@ PROP = dict(
     id="C09",
     engines=["c09"],
     go_tags=["c09"],
+    extract_files={
+        "MM/Gen/LockC09d.lean": {"cmd": ["go", "run", "{VERIF}/tools/lockshape.go", "LockC09d", "{REPO}/internal/routing/domain.go", "DomainTable.AddRoute,DomainTable.RemoveRoute,DomainTable.RemoveRoutesFromPeer,DomainTable.CleanupStaleRoutes,DomainTable.Clear,DomainTable.Lookup,DomainTable.HasRoute", "mu", "exactRoutes,wildcardBase"]},
+        "MM/Gen/LockC09f.lean": {"cmd": ["go", "run", "{VERIF}/tools/lockshape.go", "LockC09f", "{REPO}/internal/routing/forward.go", "ForwardTable.AddRoute,ForwardTable.RemoveRoute,ForwardTable.RemoveRoutesFromPeer,ForwardTable.CleanupStaleRoutes,ForwardTable.Clear,ForwardTable.Lookup,ForwardTable.HasRoute", "mu", "routes"]},
+        "MM/Gen/LockC09a.lean": {"cmd": ["go", "run", "{VERIF}/tools/lockshape.go", "LockC09a", "{REPO}/internal/routing/agent.go", "AgentTable.AddRoute,AgentTable.RemoveRoute,AgentTable.RemoveRoutesFromPeer,AgentTable.CleanupStaleRoutes,AgentTable.Clear,AgentTable.Lookup,AgentTable.GetRoutesForAgent", "mu", "routes"]},
+    },
     lean_modules=["MM.Props.C09"],
     theorems=[
         "MM.C09.matchesB_iff",
@@ -27,6 +32,8 @@ PROP = dict(
          "implementation's own answers. Non-trivial = a lookup that returned a route, or an accepted mutation.",
     nontrivial=lambda op, out: out.startswith(("route", "routes E", "true", "1 ", "2 ", "3 ", "4 ", "5 ")),
     trusted_base=[
+        "tools/lockshape.go (go/ast): the lock-shape facts MM/Gen/Lock*.lean the atomic-step theorems are decided on; goroutine scheduling "
+        "inside one critical section and sync.RWMutex itself are assumed, not modelled",
         "MM/Model/C09.lean: strings.ToLower / TrimSpace / Index modelled on ASCII bytes (the generator stays below 0x80; Go's Unicode folding "
         "outside that alphabet is not modelled)",
         "the two maps of DomainTable are modelled as one map keyed by (wildcard?, lower-cased key)",
@@ -34,6 +41,9 @@ PROP = dict(
         "routes are aged through a verif accessor that shifts LastUpdate (harness/exports/internal__routing/c09.go)",
     ],
     assumptions=[
+        "each table method is one atomic step: tied to the source by the *_atomic_steps theorems (one lock acquisition per method, route map "
+        "touched only under the write lock in mutators, read under R/W in lookups) and exercised by the `race` stress op (goroutines released at "
+        "once, up to 400 attempts per op, outcome must be a well-formed table equal to the result of some serial order)",
         "domain names and forward keys are ASCII",
         "`Matches` reads IsWildcard / BaseDomain as stored (the table trusts its caller for them, as DomainTable.AddRoute does)",
     ],
@@ -48,3 +58,28 @@ PROP = dict(
         technique="Lean 4 proof (inductive invariant, generic keyed table) + differential correspondence harness + executable statement on impl answers",
     ),
 )
+
+
+# --- atomic-step tie ---------------------------------------------------------------------------
+# The lock-shape theorems live in their own Lean module and are built here, not in the main build:
+# when they break (a critical section was split or an access moved out of it) the model and the
+# driver still build, so the differential run and the failing-input search (concurrency stress op
+# `race`) can still look for a concrete bad outcome.
+LOCK_MODULE = "MM.Props.C09Lock"
+LOCK_THEOREMS = ['MM.C09.C09_atomic_steps_domain', 'MM.C09.C09_atomic_steps_forward', 'MM.C09.C09_atomic_steps_agent']
+
+
+def before_diff(c):
+    import vlib
+    ok, out, failed = vlib.lake_build([LOCK_MODULE])
+    if not ok:
+        c.oblige("tie:atomic-steps(" + LOCK_MODULE + ")", "tie", False,
+                 "a table method no longer is one critical section under the write lock (see MM/Gen/Lock*.lean):\n" + "\n".join(failed) + "\n" + out[-1500:])
+        return
+    res, text = vlib.audit_axioms([LOCK_MODULE], LOCK_THEOREMS)
+    for t in LOCK_THEOREMS:
+        ax = res.get(t)
+        c.axioms[t] = ax
+        c.oblige("thm:" + t, "thm", ax is not None and all(a in vlib.ALLOWED_AXIOMS for a in ax), "axioms: " + ", ".join(ax or ["<missing>"]))
+    hits = vlib.grep_forbidden([vlib.module_file(m) for m in vlib.transitive_local_imports([LOCK_MODULE])])
+    c.oblige("no-sorry-admit-native_decide-axiom(lock)", "audit", not hits, "\n".join(hits))
